@@ -2,4 +2,4 @@ From DV Require Import Config.
 Require Extraction.
 Require Import ExtrOcamlBasic.
 Extraction "model.ml" format_string parse_string git_parse_value escape_subsection unescape_subsection
-  setting_line value_part needs_quote.
+  setting_line value_part needs_quote md_init md_step md_getitem md_get_all md_len.
